@@ -1,5 +1,5 @@
 """C05 — Per-key reads and writes are atomic and linearizable (DESIGN.md §7 C05)."""
-import hashlib, json, os, random, threading, time
+import base64, hashlib, json, os, random, struct, threading, time, zlib
 from vlib import common, coq, gobuild, gw, s3c, e2e, hooks
 from vlib.common import coq_list
 
@@ -14,9 +14,14 @@ def body_of(i):
     return (("w%06d-" % i).encode() * (n // 8 + 1))[:n]
 
 
-def write_headers(i, tags=True):
+def crc_of(i):
+    return base64.b64encode(struct.pack(">I", zlib.crc32(body_of(i)) & 0xffffffff)).decode()
+
+
+def write_headers(i, tags=True, cksum=False):
     hd = {"x-amz-meta-write": str(i), "content-type": "application/x-w%d" % i}
     if tags: hd["x-amz-tagging"] = "write=%d" % i
+    if cksum: hd["x-amz-checksum-crc32"] = crc_of(i)
     return hd
 
 
@@ -51,6 +56,10 @@ def classify(r):
     if cl is not None and "body" not in seen:
         lens = [i for i in set(seen.values()) if i >= 0 and len(body_of(i)) == int(cl)]
         seen["length"] = lens[0] if lens else -2
+    ck = r.headers.get("x-amz-checksum-crc32")
+    if ck:
+        ws = [i for i in set(seen.values()) if i >= 0 and crc_of(i) == ck]
+        seen["checksum"] = ws[0] if ws else next((i for i in range(0, 400) if crc_of(i) == ck), -3)
     tc = r.headers.get("x-amz-tagging-count")
     vals = set(seen.values())
     if len(vals) > 1:
@@ -75,15 +84,15 @@ def schedules(chk, gwbin, label, cfg, mcases):
         def fresh_key(initial=True):
             n[0] += 1; k = "k%03d" % n[0]
             if initial:
-                r = A.req("PUT", "/bkt/" + k, body=body_of(2 * n[0]), headers=write_headers(2 * n[0]))
+                r = A.req("PUT", "/bkt/" + k, body=body_of(2 * n[0]), headers=write_headers(2 * n[0], cksum=True))
                 chk.require(r.status == 200, "c05:setup", "initial PUT failed: %d %s" % (r.status, r.code))
             return k, 2 * n[0], 2 * n[0] + 1
-        def put(cl, k, w): return lambda: cl.req("PUT", "/bkt/" + k, body=body_of(w), headers=write_headers(w))
-        def get(cl, k, method="GET"): return lambda: cl.req(method, "/bkt/" + k)
+        def put(cl, k, w): return lambda: cl.req("PUT", "/bkt/" + k, body=body_of(w), headers=write_headers(w, cksum=True))
+        def get(cl, k, method="GET"): return lambda: cl.req(method, "/bkt/" + k, headers={"x-amz-checksum-mode": "ENABLED"})
         def dele(cl, k): return lambda: cl.req("DELETE", "/bkt/" + k)
         def copy(cl, k, w):
             # (the source is uploaded before the schedule starts: only the copy itself is the request under test)
-            cl.req("PUT", "/bkt/src%d" % w, body=body_of(w), headers=write_headers(w))
+            cl.req("PUT", "/bkt/src%d" % w, body=body_of(w), headers=write_headers(w, cksum=True))
             return lambda: cl.req("PUT", "/bkt/" + k, headers={"x-amz-copy-source": "bkt/src%d" % w})
         def mpu(cl, k, w):
             r0 = cl.req("POST", "/bkt/" + k, query={"uploads": ""}, headers=write_headers(w))
@@ -156,6 +165,55 @@ def schedules(chk, gwbin, label, cfg, mcases):
             report("delete|put", s_, k, old, new, [("GET after delete and put finished", fin)] if parked else [], parked, {new, "missing"})
             hk.clear()
         chk.tie("gateway still running after the schedules (%s)" % label, g.alive(), g.log_tail())
+
+
+def bare_overwrites(chk, gwbin, label, cfg):
+    """one client, no overlap: a write that supplies no metadata at all replaces a write that had all of it; the read
+    afterwards must show the new write alone (no content type, user metadata, tag or checksum of the replaced one)"""
+    with gw.Site(cfg, name="c05b") as site:
+        g = site.gateway(gwbin)
+        A = s3c.Client(g.port, "root", "rootsecret")
+        chk.require(A.req("PUT", "/bkt").status == 200, "c05:setup", "CreateBucket failed")
+        A.req("PUT", "/bkt/baresrc", body=body_of(301))
+        for n, how in enumerate(["put", "copy", "copy-replace", "multipart", "put-after-multipart", "multipart-after-multipart"]):
+            k, old, new = "b%d" % n, 310 + 2 * n, 311 + 2 * n
+            if how.endswith("after-multipart"):
+                r0 = A.req("POST", "/bkt/" + k, query={"uploads": ""}, headers=write_headers(old))
+                uid = r0.xml().findtext("UploadId") if r0.status == 200 else "none"
+                rp = A.req("PUT", "/bkt/" + k, query={"partNumber": "1", "uploadId": uid}, body=body_of(old))
+                r1 = A.req("POST", "/bkt/" + k, query={"uploadId": uid}, body=("<CompleteMultipartUpload><Part><PartNumber>1</PartNumber><ETag>%s</ETag></Part></CompleteMultipartUpload>" % rp.headers.get("etag", "")).encode())
+            else:
+                r1 = A.req("PUT", "/bkt/" + k, body=body_of(old), headers=write_headers(old, cksum=True))
+            if how in ("put", "put-after-multipart"):
+                r2 = A.req("PUT", "/bkt/" + k, body=body_of(new)); want = body_of(new)
+            elif how.startswith("copy"):
+                hd = {"x-amz-copy-source": "bkt/baresrc"}
+                if how == "copy-replace": hd["x-amz-metadata-directive"] = "REPLACE"; hd["x-amz-tagging-directive"] = "REPLACE"
+                r2 = A.req("PUT", "/bkt/" + k, headers=hd); want = body_of(301)
+            else:
+                r0 = A.req("POST", "/bkt/" + k, query={"uploads": ""})
+                uid = r0.xml().findtext("UploadId") if r0.status == 200 else "none"
+                rp = A.req("PUT", "/bkt/" + k, query={"partNumber": "1", "uploadId": uid}, body=body_of(new))
+                r2 = A.req("POST", "/bkt/" + k, query={"uploadId": uid}, body=("<CompleteMultipartUpload><Part><PartNumber>1</PartNumber><ETag>%s</ETag></Part></CompleteMultipartUpload>" % rp.headers.get("etag", "")).encode())
+                want = body_of(new)
+            chk.case((label, "bare-overwrite", how), True); chk.traces += 1
+            if r1.status != 200 or r2.status != 200:
+                chk.tie("[%s] the two writes of the bare-overwrite history (%s) are acknowledged" % (label, how), False, "%s / %s" % (r1, r2))
+                continue
+            g_ = A.req("GET", "/bkt/" + k, headers={"x-amz-checksum-mode": "ENABLED"})
+            t_ = A.req("GET", "/bkt/" + k, query={"tagging": ""})
+            left = []
+            if g_.status != 200 or g_.body != want: left.append("GET %d with %d bytes (expected the %d bytes of the second write)" % (g_.status, len(g_.body or b""), len(want)))
+            if e2e.meta_of(g_.headers): left.append("user metadata %r" % e2e.meta_of(g_.headers))
+            if g_.headers.get("content-type", "").startswith("application/x-w"): left.append("content-type %s" % g_.headers.get("content-type"))
+            if g_.headers.get("x-amz-tagging-count") not in (None, "0"): left.append("x-amz-tagging-count %s" % g_.headers.get("x-amz-tagging-count"))
+            if t_.status == 200 and b"<Tag>" in (t_.body or b""): left.append("tags %r" % t_.body[-120:])
+            if g_.headers.get("x-amz-checksum-crc32") == crc_of(old): left.append("x-amz-checksum-crc32 of the replaced write")
+            chk.count("%s:bare-overwrite:%s:%s" % (label, how, "mixed" if left else "clean"))
+            if left:
+                chk.fail("c05:mixture:bare-overwrite:%s" % how, "[%s] after write %d (body, content type, metadata, tag, checksum) was replaced by a %s that supplies none of them, the key reads as: %s"
+                         % (label, old, how, "; ".join(left)), {"config": label, "history": how, "left_over": left})
+        chk.tie("gateway still running after the bare overwrites (%s)" % label, g.alive(), g.log_tail())
 
 
 def linearizable(history):
@@ -245,7 +303,9 @@ def run(chk):
                 "overwrite (three kinds) or a delete runs; two writers; a delete parked against GET and PUT. Every write has a body, length, ETag, content-type, "
                 "user metadata and tag that identify it, so a response mixing two writes, a prefix, or a key that reads as missing is recognised. (b) concurrent "
                 "rounds of 3-6 clients (put / delete / get / head on one key) through one and through two gateway processes sharing the storage, each history "
-                "checked for linearizability (Wing-Gong search). Non-trivial: every case; distinct by schedule.")
+                "checked for linearizability (Wing-Gong search). (c) sequential histories in which a write supplying no metadata (put, copy, copy with REPLACE, "
+                "multipart completion) replaces a write that had all of it, in the xattr, sidecar and versioned configurations. Reads ask for the stored checksum "
+                "(x-amz-checksum-mode), which identifies the write as well. Non-trivial: every case; distinct by schedule.")
     gwbin = gobuild.build_gateway("verif")
     built = coq.ensure_built(chk, TARGETS)
     if built:
@@ -253,6 +313,8 @@ def run(chk):
     mcases = []
     for label, cfg in CONFIGS:
         schedules(chk, gwbin, label, cfg, mcases)
+    for label, cfg in CONFIGS + [("sidecar", {"iam": False, "meta": "sidecar"}), ("versioned", {"iam": False, "versioning": True})]:
+        bare_overwrites(chk, gwbin, label, cfg)
     for label, cfg in CONFIGS:
         stress(chk, gwbin, label, cfg, 25 if quick else 400, 1)
         stress(chk, gwbin, label, cfg, 25 if quick else 400, 2)
